@@ -84,7 +84,13 @@ def main():
     if ck.tier == 'thorough':
         thorough_text(ck, M, nat, TOK, OPC)
 
-    ck.assume("Lexer::readToken cut: after MINUS the next token is NUMBER with value n (strtoul result < 2^32; larger literals are outside the property)",
+    # the cut is discharged by the character-level kernel: every decimal literal of 1..10 digits (value < 2^32) becomes NUMBER with its value
+    import lexlib
+    lexlib.check_literals(ck, lexlib.Lex(), max_digits=10 if ck.tier == 'quick' else 12)
+
+    ck.assume("Lexer::readToken is cut in the encoder harness (after MINUS the next token is NUMBER with value n) and decided separately: the real Lexer (constructor, readChar, readToken) runs on every string of "
+              "1..10 symbolic decimal digits followed by an arbitrary non-digit or end of file and z3 proves token NUMBER with value == the decimal value, for values < 2^32 (larger literals are outside the property); "
+              "std::istream::get(char&), the stream's eof state, isspace/isalpha/isalnum/isdigit (\"C\" locale) and strtoul (exact, saturating at ULONG_MAX) are models",
               "std::ostream::put/write modelled as byte sinks",
               "libstdc++ std::map rebalancing replaced by plain BST insertion (order-preserving)",
               "operator new never fails")
